@@ -278,11 +278,19 @@ func (r *Runner) RunCase(c *Case, prefixFolder string, ref Ref, created []bool) 
 		rin.Txn.Fault = Fault{Index: -1}
 		rout, rerr := RunTxn(rin, r.Root)
 		if rerr != nil {
-			add("C07", "retry-crashed", rerr.Error())
+			cause := "other"
+			if leftoverClaim(out.Post) {
+				cause = "leftover-claimed-inactive-id"
+			}
+			add("C07", "retry-crashed/"+cause, rerr.Error())
 		} else {
 			o.Retry = rout
 			if rout.EndErr != "" {
-				add("C07", "retry-blocked", fmt.Sprintf("after a failed commit (fault %+v at %s) the same changes do not commit: %s", c.Fault, faultSite(out, c.Fault), rout.EndErr))
+				cause := "other"
+				if leftoverClaim(out.Post) {
+					cause = "leftover-claimed-inactive-id"
+				}
+				add("C07", "retry-blocked/"+cause, fmt.Sprintf("after a failed commit (fault %+v at %s) the same changes do not commit: %s", c.Fault, faultSite(out, c.Fault), rout.EndErr))
 			} else {
 				o.RetryDump = sopx.DumpFresh(folder, p.HashMod, false)
 				cr2 := append([]bool(nil), created...)
@@ -298,16 +306,40 @@ func (r *Runner) RunCase(c *Case, prefixFolder string, ref Ref, created []bool) 
 	return o, nil
 }
 
+// faultSite names the failed call by the commit step in progress (last commit function logged) and the interface method.
 func faultSite(out *ChildOut, f Fault) string {
-	if f.Index >= 0 && f.Index < len(out.Events) {
-		ev := out.Events[f.Index]
-		s := ev.Key()
-		if ev.Iface == "tlog" && ev.Method == "Add" {
-			s += fmt.Sprintf("(step %d)", ev.Step)
-		}
-		return s
+	if f.Index < 0 || f.Index >= len(out.Events) {
+		return "none"
 	}
-	return "none"
+	step := 0
+	for i := 0; i < f.Index; i++ {
+		if ev := out.Events[i]; ev.Key() == "tlog.Add" {
+			step = ev.Step
+		}
+	}
+	ev := out.Events[f.Index]
+	s := ev.Key()
+	if s == "tlog.Add" {
+		return fmt.Sprintf("log(step %d)", ev.Step)
+	}
+	m := ""
+	if f.Mode == "failafter" {
+		m = "+performed"
+	}
+	return fmt.Sprintf("step%d:%s%s", step, s, m)
+}
+
+// leftoverClaim reports whether a handle keeps a claimed (timestamped) inactive id.
+func leftoverClaim(s *State) bool {
+	if s == nil {
+		return false
+	}
+	for _, h := range s.Handles {
+		if h.A != 0 && h.B != 0 && h.Wip == 2 && !h.Deleted {
+			return true
+		}
+	}
+	return false
 }
 
 // ---------------------------------------------------------------- orphans (C11) from the raw durable state
